@@ -18,7 +18,11 @@ impl Wake for Counting {
 struct Sys {
     voters: Vec<Option<Voter>>,
     rx: Receiver,
+    // The waiter may be polled with a different waker each time (it can be moved to another task): two wakers are
+    // used alternately and only a wake-up of the one used by the latest pending poll counts (`wakes`); a wake-up of
+    // the other one (`stale`) is reported as such.
     wakes: Arc<Counting>,
+    stale: Arc<Counting>,
 }
 
 fn vr(r: VoteResult) -> &'static str {
@@ -31,14 +35,30 @@ fn vr(r: VoteResult) -> &'static str {
 impl Sys {
     fn new(n: usize) -> Option<Sys> {
         let (vs, rx) = coordinator(n)?;
-        Some(Sys { voters: vs.into_iter().map(Some).collect(), rx, wakes: Arc::new(Counting(Default::default())) })
+        Some(Sys {
+            voters: vs.into_iter().map(Some).collect(),
+            rx,
+            wakes: Arc::new(Counting(Default::default())),
+            stale: Arc::new(Counting(Default::default())),
+        })
     }
     /// The result of the operation, followed by ` wake` if it woke the receiver's registered waker.
     fn exec(&mut self, op: &str) -> String {
-        let before = self.wakes.0.load(std::sync::atomic::Ordering::SeqCst);
+        // counters are identified by the waker they belong to (a `poll` swaps the two roles)
+        let cur = self.wakes.clone();
+        let old = self.stale.clone();
+        let before = cur.0.load(std::sync::atomic::Ordering::SeqCst);
+        let stale_before = old.0.load(std::sync::atomic::Ordering::SeqCst);
         let r = self.exec0(op);
-        let after = self.wakes.0.load(std::sync::atomic::Ordering::SeqCst);
-        if after > before { format!("{} wake", r) } else { r }
+        let after = cur.0.load(std::sync::atomic::Ordering::SeqCst);
+        let stale_after = old.0.load(std::sync::atomic::Ordering::SeqCst);
+        if stale_after > stale_before {
+            format!("{} stale-waker-woken", r)
+        } else if after > before {
+            format!("{} wake", r)
+        } else {
+            r
+        }
     }
     fn exec0(&mut self, op: &str) -> String {
         let parts: Vec<&str> = op.split_whitespace().collect();
@@ -59,6 +79,8 @@ impl Sys {
                 None => "disabled".into(),
             },
             ["poll"] => {
+                // the waiter comes with the other waker this time; the one of its previous poll is now stale
+                std::mem::swap(&mut self.wakes, &mut self.stale);
                 let w = Waker::from(self.wakes.clone());
                 let mut cx = Context::from_waker(&w);
                 match Pin::new(&mut self.rx).poll(&mut cx) {
